@@ -307,6 +307,77 @@ pub mod iter {
             // association order is unspecified: sum in execution order
             self.into_par().run().0.into_iter().map(|(_, v)| v).sum()
         }
+        /// rayon folds each split of the input separately and yields one accumulator per split; how
+        /// the input is split depends on the pool and on work stealing: here the (ordered) results are
+        /// cut into contiguous groups at seeded positions (one group without a seed, as one thread does)
+        fn fold<'a, T, ID, F>(self, identity: ID, fold_op: F) -> Par<'a, T>
+        where
+            Self: 'a,
+            Self::Item: 'a,
+            T: Send + 'a,
+            ID: Fn() -> T + Sync + Send + 'a,
+            F: Fn(T, Self::Item) -> T + Sync + Send + 'a,
+        {
+            let p = self.into_par();
+            let ordered = p.ordered;
+            let items = p.results();
+            let mut accs: Vec<T> = Vec::new();
+            let mut cur: Option<T> = None;
+            for x in items {
+                let acc = cur.take().unwrap_or_else(&identity);
+                cur = Some(fold_op(acc, x));
+                // close the group here with probability 1/3
+                if below(3) == 2 {
+                    accs.push(cur.take().unwrap());
+                }
+            }
+            if let Some(c) = cur {
+                accs.push(c);
+            }
+            if accs.is_empty() {
+                accs.push(identity());
+            }
+            Par::from_vec(accs, ordered)
+        }
+        fn cloned<'a, 'x, T>(self) -> Par<'a, T>
+        where
+            Self: ParallelIterator<Item = &'x T> + 'a,
+            T: Clone + Send + Sync + 'a + 'x,
+        {
+            self.map(|x: &'x T| x.clone())
+        }
+        fn copied<'a, 'x, T>(self) -> Par<'a, T>
+        where
+            Self: ParallelIterator<Item = &'x T> + 'a,
+            T: Copy + Send + Sync + 'a + 'x,
+        {
+            self.map(|x: &'x T| *x)
+        }
+        fn flat_map<'a, F, I>(self, f: F) -> Par<'a, I::Item>
+        where
+            Self: 'a,
+            Self::Item: 'a,
+            F: Fn(Self::Item) -> I + Sync + Send + 'a,
+            I: IntoIterator + 'a,
+            I::Item: Send + 'a,
+        {
+            let p = self.into_par();
+            let ordered = p.ordered;
+            let f = Arc::new(f);
+            let groups: Vec<Vec<I::Item>> = Par {
+                ordered,
+                items: p
+                    .items
+                    .into_iter()
+                    .map(|t| {
+                        let f = f.clone();
+                        Box::new(move || t().map(|x| f(x).into_iter().collect::<Vec<_>>())) as Thunk<'a, Vec<I::Item>>
+                    })
+                    .collect(),
+            }
+            .results();
+            Par::from_vec(groups.into_iter().flatten().collect(), ordered)
+        }
         fn reduce<'a, OP, ID>(self, identity: ID, op: OP) -> Self::Item
         where
             Self: 'a,
